@@ -20,8 +20,8 @@ import gen_tables
 import imsc_common as IC
 
 PROP = "C04"
-TARGETS = ["Model/ImscCases.vo", "Proofs/C04/TimeSyntax.vo", "Proofs/C04/Interval.vo", "Proofs/C04/Total.vo", "Proofs/C04/Params.vo", "Proofs/C04/Tables.vo"]
-HEADER = ("From TT Require Import Base.Prelude Base.ImscXml Model.ImscTime Model.ImscTiming Spec.TtmlTimingSpec Model.ImscCases.\n"
+TARGETS = ["Model/ImscCases.vo", "Proofs/C04/TimeSyntax.vo", "Proofs/C04/TimeReject.vo", "Proofs/C04/Interval.vo", "Proofs/C04/Total.vo", "Proofs/C04/TotalSeq.vo", "Proofs/C04/Params.vo", "Proofs/C04/Tables.vo", "Proofs/C04/BadAttr.vo", "Proofs/C04/Styles.vo"]
+HEADER = ("From TT Require Import Base.Prelude Base.ImscXml Model.ImscTime Model.ImscStyles Model.ImscTiming Model.ImscWrite Model.ImscWriteCases Spec.TtmlTimingSpec Model.ImscCases Proofs.C04.TimeReject.\n"
           "From Coq Require Import QArith.\nLocal Open Scope Z_scope.\n")
 GRAMMAR = re.compile(r"(\d+(\.\d+)?(h|m|s|ms|f|t)|\d{2,}:\d\d:\d\d(\.\d+)?|\d{2,}:\d\d:\d\d:\d{2,})\Z", re.ASCII)
 
@@ -87,7 +87,7 @@ def ctx_of(tt):
 
 def doc_case(i, tt, table, ctx, rng):
     """run the code on one document; returns the Coq definitions and the bookkeeping record"""
-    lit = IC.Lit()
+    lit = IC.Lit(); sl = IC.StyleLit(lit, tt)
     doc, exc, logs = IC.read_tree(copy.deepcopy(tt))
     rec = dict(i=i, exc=exc, nlogs=len(logs), obs=None)
     xl = lit.xml(tt)
@@ -97,7 +97,7 @@ def doc_case(i, tt, table, ctx, rng):
     elif doc is None:
         expected = "(DErr 8)"; obs = []
     else:
-        expected = IC.doc_lit(lit, doc)
+        expected = IC.doc_lit(lit, doc, sl)
         obs = []
         for t in IC.probe_times(tt, table, ctx, doc, rng):
             try:
@@ -107,7 +107,7 @@ def doc_case(i, tt, table, ctx, rng):
     rec["obs"] = obs
     tab = "[" + ";".join(f"({C.text(s)},{IC.ast_lit(a)})" for s, a in table.items()) + "]"
     obl = "[" + ";".join(f"({C.q(t)},[" + ";".join(C.text(s) for s in o) + "])" for t, o in obs) + "]"
-    defs = (f"Definition x{i} : xml := {xl}.\nDefinition t{i} : list (text * texpr) := {tab}.\n"
+    defs = (f"Definition x{i} : xml := {xl}.\nDefinition t{i} : list (text * texpr) := {tab}.\nDefinition q{i} : list (qname * text * option Z) := {sl.table()}.\n"
             f"Definition e{i} : dres := {expected}.\nDefinition o{i} : list (Q * list text) := {obl}.\n")
     return defs, rec
 
@@ -173,8 +173,12 @@ LAX_PARAMS = {"begin", "end", "dur", "frameRate", "frameRateMultiplier", "tickRa
 def palette(e, k):
     if k in PALETTES: return PALETTES[k]
     if k == IC.q(IC.NS_TTS, "extent") and e.tag == IC.q(IC.NS_TT, "tt"): return PALETTES[k + "@tt"]
-    if k.startswith("{") and k[1:].split("}")[0] in STYLE_NS and k.split("}")[1] not in STYLE_SKIP and e.tag != IC.q(IC.NS_TT, "tt"):
-        return STYLE_BAD
+    if k.startswith("{") and k[1:].split("}")[0] in STYLE_NS and e.tag != IC.q(IC.NS_TT, "tt"):
+        key = (k[1:].split("}")[0], k.split("}")[1])
+        if key in IC.PROP_VALUES:
+            # the malformed strings of the property's table (a string such as "12" is malformed for one property and fine for another)
+            bad = [v for v in IC.PROP_VALUES[key][1] if (key, v) not in IC.MODEL_INVALID]
+            return bad + ([""] if "" not in bad else []) + (["bogus"] if not bad else [])
     return None
 
 
@@ -242,7 +246,9 @@ def classify_corrupt(name, on_tt, exc, same, logged, value=""):
     if local in ("begin", "end", "dur"): return "lax-value-syntax" if lax_time(value) else None
     if local in LAX_PARAMS and on_tt: return "lax-value-syntax" if lax_param(value) else None
     if name == IC.q(IC.NS_TTS, "ruby"): return "bad-ruby-drops-span"
-    if name.startswith("{") and name[1:].split("}")[0] in STYLE_NS: return "lax-style-syntax"
+    if name.startswith("{") and name[1:].split("}")[0] in STYLE_NS:
+        # parsers without a rejection path: anything is false / all-None; an empty tts:position is "center center"
+        return "lax-style-syntax" if local in ("fillLineGap", "textDecoration") or (local == "position" and value.strip() == "") else None
     return None
 
 
@@ -282,7 +288,7 @@ def main():
         defs.append((i, d)); recs.append(rec)
     run.log(f"{len(docs)} documents read by the code in {time.time() - t0:.1f}s")
     lines = lambda idx: [
-        "Eval vm_compute in check_all [" + ";".join(f"case_model x{i} e{i}" for i in idx) + "].",
+        "Eval vm_compute in check_all [" + ";".join(f"case_model x{i} q{i} e{i}" for i in idx) + "].",
         "Eval vm_compute in check_all [" + ";".join(f"case_spec x{i} t{i} o{i}" for i in idx) + "].",
         "Eval vm_compute in check_all [" + ";".join(f"negb (case_trig_seq x{i} t{i})" for i in idx) + "].",
         "Eval vm_compute in check_all [" + ";".join(f"negb (case_trig_tick x{i} t{i})" for i in idx) + "]."]
@@ -314,6 +320,88 @@ def main():
     if isd_exc and not unlisted:
         r = isd_exc[0]
         run.cov["isd_exceptions"] = len(isd_exc)
+
+    # ---------------------------------------------------------------- style documents: M = code, S (style association) on the code
+    import ttconv.imsc.style_properties as isp
+    import imsc_docgen as DG
+    pnames = DG.prop_names()
+    nsty = 4000 if thorough else 300
+    sdefs = []; sinfo = []
+    for i in range(nsty):
+        g = IC.StyleDocGen(rng); stt = g.document()
+        lit = IC.Lit(); sl = IC.StyleLit(lit, stt)
+        doc, exc, logs = IC.read_tree(copy.deepcopy(stt))
+        vals = []
+        def ident(v):
+            for j, w in enumerate(vals):
+                if type(w) is type(v) and w == v: return j
+            vals.append(v); return len(vals) - 1
+        vrows = []; seen = set()
+        for e in stt.iter():
+            for k, v in e.attrib.items():
+                cls = isp.StyleProperties.BY_QNAME.get(k)
+                if cls is None or (k, v) in seen: continue
+                seen.add((k, v))
+                try:
+                    val = cls.extract(None, v)
+                    if not cls.model_prop.validate(val): raise ValueError("invalid")
+                    vrows.append(f"({lit.qn(k)},{C.text(v)},{ident((cls.model_prop.__name__, val))})")
+                except (ValueError, KeyError):
+                    vrows.append(f"({lit.qn(k)},{C.text(v)},(-3))")
+        wrows = [f"({lit.qn(k)},{C.text(v)},{C.boolean(ok)})" for (k, v), ok in g.wf.items()]
+        kv = lambda items: "[" + ";".join(f"({a},{C.z(b)})" for a, b in sorted(items)) + "]"
+        def vid(p, v):
+            for j, w in enumerate(vals):
+                if w[0] == p.__name__ and type(w[1]) is type(v) and w[1] == v: return j
+            return -9
+        if exc is not None or doc is None:
+            expected = f"(DErr {IC.EXC_CODES.get(exc, 9)})"; obs = None
+        else:
+            expected = IC.doc_lit(lit, doc, sl); obs = IC.style_observation(stt, doc)
+        # loops among style references are an error in TTML2 (no defined meaning): such documents are compared with the model only
+        graph = {}
+        for st in stt.iter(IC.q(IC.NS_TT, "style")):
+            sid = st.get(IC.q(IC.NS_XML, "id"))
+            if sid is not None and sid not in graph: graph[sid] = (st.get("style") or "").split(" ")
+        def cyclic():
+            state = {}
+            def visit(n):
+                if state.get(n) == 1: return True
+                if state.get(n) == 2 or n not in graph: return False
+                state[n] = 1
+                if any(visit(x) for x in graph[n]): return True
+                state[n] = 2; return False
+            return any(visit(n) for n in graph)
+        loop = cyclic()
+        if loop: g.flags.add("style-loop")
+        if loop and exc is None:
+            sline = "true"
+        elif obs is None:
+            sline = "false"
+        else:
+            per = "[" + ";".join(kv([(pnames.index(p.__name__), vid(p, me.get_style(p))) for p in me.iter_styles()]) for me in obs) + "]"
+            ini = kv([(pnames.index(p.__name__), vid(p, v)) for p, v in doc.iter_initial_values()])
+            sline = f"case_styles y{i} [{';'.join(wrows)}] [{';'.join(vrows)}] {per} {ini}"
+        sdefs.append((i, f"Definition y{i} : xml := {lit.xml(stt)}.\nDefinition m{i} := case_model y{i} {sl.table()} {expected}.\nDefinition s{i} := {sline}.\n"))
+        sinfo.append(dict(doc=stt, exc=exc, flags=g.flags, mirrored=obs is not None or exc is not None))
+    slines = lambda idx: ["Eval vm_compute in check_all [" + ";".join(f"m{i}" for i in idx) + "].",
+                          "Eval vm_compute in check_all [" + ";".join(f"s{i}" for i in idx) + "]."]
+    sfiles = write_shards("Cases_C04_sty_", sdefs, slines)
+    (sm_bad, ss_bad), sbroken = run_shards(sfiles, 2)
+    s_unlisted = []; s_hits = {}
+    for i in ss_bad:
+        inf = sinfo[i]
+        if inf["exc"] == "ValueError" and "style-invalid-value" in inf["flags"]: s_hits.setdefault("style-invalid-value-abort", []).append(i)
+        elif inf["exc"] is None and "textshadow-comma-space" in inf["flags"]: s_hits.setdefault("textshadow-comma-space", []).append(i)
+        else: s_unlisted.append(i)
+    for fid, idx in s_hits.items():
+        if not run.known(fid, f"{len(idx)} style documents, e.g. #{idx[0]}"): s_unlisted += idx
+    run.log(f"style documents: {nsty}, M/code mismatches {len(sm_bad)}, S failures {len(ss_bad)} ({ {k: len(v) for k, v in s_hits.items()} }), unlisted {len(s_unlisted)}, "
+            f"reader exceptions {sum(1 for x in sinfo if x['exc'])}, reference loops (model only) {sum(1 for x in sinfo if 'style-loop' in x['flags'])}")
+    for i in s_unlisted[:3]:
+        run.violation(f"style document {i}: " + (f"the reader raises {sinfo[i]['exc']}" if sinfo[i]["exc"] else "the specified styles differ from TTML2 style association"),
+                      dict(kind="S-on-code", document=xml_text(sinfo[i]["doc"]), reader_exception=sinfo[i]["exc"], flags=sorted(sinfo[i]["flags"]),
+                           spec="coq/Spec/TtmlStyleSpec.v doc_specified; re-evaluate with Model/ImscCases.v spec_styles"))
 
     # ---------------------------------------------------------------- time expressions and parameters
     from ttconv.imsc.utils import parse_time_expression
@@ -351,12 +439,15 @@ def main():
             okk = (gk == "bad") if not ing else True
             if gk == "zero": okk = True          # zero rates are judged by the parameter cases
             d += f"Definition s{i} := {C.boolean(okk)}.\n"
+        d += f"Definition l{i} := negb (lax_trigger {C.text(s)}).\n"
         tdefs.append((i, d)); tinfo.append((s, fr, tr, gk, ing, mutated))
     tl = lambda idx: ["Eval vm_compute in check_all [" + ";".join(f"m{i}" for i in idx) + "].",
                       "Eval vm_compute in check_all [" + ";".join(f"s{i}" for i in idx) + "]."]
-    tfiles = write_shards("Cases_C04_time_", tdefs, tl)
-    (tm_bad, ts_bad), tbroken = run_shards(tfiles, 2)
-    lax = [i for i in ts_bad if tinfo[i][3] == "val" and not tinfo[i][4] and lax_time(tinfo[i][0], tinfo[i][1] is not None)]
+    tl3 = lambda idx: tl(idx) + ["Eval vm_compute in check_all [" + ";".join(f"l{i}" for i in idx) + "]."]
+    tfiles = write_shards("Cases_C04_time_", tdefs, tl3)
+    (tm_bad, ts_bad, t_trig), tbroken = run_shards(tfiles, 3)
+    t_trig = set(t_trig)      # strings on which the Coq trigger of lax-value-syntax (Proofs/C04/TimeReject.v lax_trigger) fires
+    lax = [i for i in ts_bad if tinfo[i][3] == "val" and not tinfo[i][4] and i in t_trig]
     other_ts = [i for i in ts_bad if i not in lax]
     run.log(f"time expressions: {ntime} strings, M/code mismatches {len(tm_bad)}, accepted outside the grammar {len(lax)}, other S failures {len(other_ts)}")
     if lax:
@@ -414,7 +505,7 @@ def main():
     # ---------------------------------------------------------------- corrupt stream
     ncor = 6000 if thorough else 500
     cor_fail = {}; cor_unlisted = []; ncor_done = 0; cor_classes = {}
-    pool = [d for d in docs if corruptible(d[0])]
+    pool = [d for d in docs if corruptible(d[0])] + [(x["doc"],) for x in sinfo if x["exc"] is None and corruptible(x["doc"])]
     for it in range(ncor):
         tt = rng.choice(pool)[0]
         unknown = it % 6 == 5
@@ -460,14 +551,15 @@ def main():
     if rc != 0: run.cov["stale_findings"] = ["coq/Findings/C04.v no longer compiles: " + out[-300:]]
 
     # ---------------------------------------------------------------- broken ties
-    all_broken = broken + tbroken + pbroken
-    n_mism = len(m_bad) + len(tm_bad) + len(pm_bad)
-    s_fail_found = bool(unlisted or other_ts or p_unlisted or cor_unlisted)
+    all_broken = broken + tbroken + pbroken + sbroken
+    n_mism = len(m_bad) + len(tm_bad) + len(pm_bad) + len(sm_bad)
+    s_fail_found = bool(unlisted or other_ts or p_unlisted or cor_unlisted or s_unlisted)
     if (n_mism or all_broken or not proofs_ok) and not s_fail_found:
         what = []
         if not proofs_ok: what.append("theorems of coq/Properties/C04.v no longer check: " + getattr(run, "proof_log", "")[-600:])
         if m_bad: what.append(f"Model/ImscTiming.v read_tt disagrees with imsc.reader.to_model on {len(m_bad)} documents, first #{m_bad[0]}")
         if tm_bad: what.append(f"Model/ImscTime.v parse_time_x disagrees with parse_time_expression on {len(tm_bad)} strings, first {tinfo[tm_bad[0]][:3]}")
+        if sm_bad: what.append(f"Model/ImscTiming.v / ImscStyles.v read_tt disagrees with the reader on {len(sm_bad)} style documents, first #{sm_bad[0]}: {xml_text(sinfo[sm_bad[0]]['doc'])[:800]}")
         if pm_bad: what.append(f"Model/ImscTime.v extract_frame_rate/extract_tick_rate disagree on {len(pm_bad)} attribute sets, first {pinfo[pm_bad[0]][0]}")
         if all_broken: what.append(f"case files did not evaluate: {all_broken[0]}")
         run.violation("; ".join(what), dict(kind="broken-tie", theorem_file="coq/Properties/C04.v", proofs_ok=proofs_ok,
@@ -479,7 +571,7 @@ def main():
     depth = lambda e: 1 + max([depth(c) for c in e] or [0])
     changes = sum(1 for r in recs for (a, b) in zip(r["obs"], r["obs"][1:]) if a[1] != b[1])
     nonempty = sum(1 for r in recs for o in r["obs"] if o[1])
-    run.cov.update(evaluations=len(docs) + n_obs + ntime + npar + 2 * ncor_done,
+    run.cov.update(evaluations=len(docs) + n_obs + nsty + ntime + npar + 2 * ncor_done, style_documents=nsty,
                    distinct_nontrivial=changes + sum(1 for x in tinfo if x[3] == "val") + ncor_done,
                    rule="documents: grammar-generated TTML (every element kind incl. ruby, begin/end/dur in the 8 time-expression syntaxes under random "
                         "ttp:frameRate / frameRateMultiplier / tickRate, par and seq containers nested to depth >= 4, set, timed regions, mixed content, "
